@@ -1267,9 +1267,14 @@ def create_href(href: str, base_href: Optional[str] = None) -> ET.Element:
     if "//" in parsed_url.path:
         logging.warning("invalidly formatted href: %s", href)
     et = ET.Element("{DAV:}href")
+    # Quote before resolving: urljoin() would take a "#" or "?" in the
+    # (unquoted) base path for the start of a fragment or query.
+    href = urllib.parse.quote(href)
     if base_href is not None:
-        href = urllib.parse.urljoin(ensure_trailing_slash(base_href), href)
-    et.text = urllib.parse.quote(href)
+        href = urllib.parse.urljoin(
+            ensure_trailing_slash(urllib.parse.quote(base_href)), href
+        )
+    et.text = href
     return et
 
 
